@@ -5,9 +5,13 @@
 //!   sv drive <family> --out <file.ndjson> [--tier quick|thorough] [--seed N]
 //!   sv replay <family> --in <behaviours.ndjson> --out <file.ndjson>
 mod fam_a;
+mod fam_f;
 mod fam_faults;
 mod fam_h;
 mod fam_o;
+mod fam_text;
+mod fam_text2;
+mod textgen;
 mod fam_work;
 mod gen;
 mod rec;
@@ -34,6 +38,13 @@ fn main() {
         ("drive", "c08") => fam_faults::drive_c08(&a, &mut out),
         ("drive", "c10") => fam_a::drive_c10(&a, &mut out),
         ("drive", "c19") => fam_work::drive_c19(&a, &mut out),
+        ("drive", "c12") => fam_f::drive_c12(&a, &mut out),
+        ("drive", "c13") => fam_f::drive_c13(&a, &mut out),
+        ("drive", "c06") => fam_text::drive_c06(&a, &mut out),
+        ("drive", "c04") => fam_text::drive_c04(&a, &mut out),
+        ("drive", "c14") => fam_text2::drive_c14(&a, &mut out),
+        ("drive", "c17") => fam_text2::drive_c17(&a, &mut out),
+        ("drive", "c20") => fam_text2::drive_c20(&a, &mut out),
         ("drive", "c10ops") => fam_a::drive_c10ops(&a, &mut out),
         (m, f) => {
             eprintln!("unknown mode/family {} {}", m, f);
